@@ -1,4 +1,5 @@
 import Pds.Proofs.KernelTie.TdCore
+import Pds.Proofs.KernelTie.TdRead
 /-!
 # C15 — tie by translation: `interpolate` and `clamped_mean` of `src/tdigest.rs`
 The two functions through which `quantile` and `cdf` produce every value they return.
@@ -11,5 +12,18 @@ theorem interpolate_translated (a b t : α) :
     Pds.Generated.Kernels.interpolate a b t = TDigest.interpolate a b t := interpolate_eq a b t
 theorem clamped_mean_translated (mn mx : α) (c : Centroid α) :
     Pds.Generated.Kernels.clamped_mean mn mx c.sum c.count = clampedMean mn mx c := clamped_mean_eq mn mx c
+
+/-- `TDigestInner::quantile` as translated (loop over the centroids with `enumerate`, early returns, the
+`debug_assert!(i > 0)`, `self.centroids[i - 1]`, both tails) is the model's `quantileInner` -/
+theorem quantile_translated (s : St α) (mn mx q : α) (hmin : s.min = some mn) (hmax : s.max = some mx) :
+    Pds.Generated.Kernels.td_quantile s.centroids mn mx q =
+      match quantileInner s q with
+      | .nan => Flow.ret KOps.nan
+      | .val v => Flow.ret v
+      | .panic => Flow.panic := td_quantile_eq s mn mx q hmin hmax
+/-- `TDigestInner::cdf` as translated is the model's `cdfInner` -/
+theorem cdf_translated (s : St α) (mn mx x : α) (hmin : s.min = some mn) (hmax : s.max = some mx) :
+    Pds.Generated.Kernels.td_cdf s.centroids mn mx x =
+      match cdfInner s x with | some r => Flow.ret r | none => Flow.panic := td_cdf_eq s mn mx x hmin hmax
 
 end Pds.Tie.C15
